@@ -67,7 +67,7 @@ func FindGrouping(n Node, name string, seen map[string]bool) *Grouping {
 				// If the prefix matches the import statement,
 				// then search for the trimmed name in that module.
 				pname := strings.TrimPrefix(name, i.Prefix.Name+":")
-				if pname == name {
+				if pname == name || i.Module == nil {
 					continue
 				}
 				if g := FindGrouping(i.Module, pname, seen); g != nil {
@@ -78,6 +78,10 @@ func FindGrouping(n Node, name string, seen map[string]bool) *Grouping {
 		v = e.FieldByName("Include")
 		if v.IsValid() {
 			for _, i := range v.Interface().([]*Include) {
+				if i.Module == nil {
+					// An include that was never linked.
+					continue
+				}
 				if seen[i.Module.Name] {
 					// Prevent infinite loops in the case that we have already looked at
 					// this submodule. This occurs where submodules have include statements
